@@ -213,6 +213,8 @@ def run(analysis: Analysis, tier: str) -> RuleResult:
             res.add("C05-R2", "__init__:Gateway.is_sensor / the presentation request is I_PRESENTATION to the node that was looked up, child 255, empty payload", okf, "mysensors/__init__.py", f"fields {f}", pr["witness"] if not okf else None, context=s["ctx"])
             okn = pr["n_reqs"] <= pr["n_lookups"]
             res.add("C05-R2", "__init__:Gateway.is_sensor / one presentation request per failed lookup", okn, "mysensors/__init__.py", f"{pr['n_reqs']} request(s) for {pr['n_lookups']} lookup(s) on the path", pr["witness"] if not okn else None, context=s["ctx"])
+            ok1 = pr["n_reqs"] <= 1
+            res.add("C05-R2", "Gateway.logic / an inbound message triggers at most one presentation request", ok1, "mysensors/__init__.py", "one request per message" if ok1 else f"{pr['n_reqs']} presentation requests are enqueued for one inbound message (the lookup with its side effect runs more than once)", pr["witness"] if not ok1 else None, context=s["ctx"])
         if vnum(ver) >= (2, 0):
             res.add("C05-R2", f"{ver}: a failed lookup requests a new presentation", bool(s["pres_req"]), "mysensors/__init__.py", "is_sensor enqueues I_PRESENTATION for an unknown node or child", context=s["ctx"])
     # R5: the value a req reply carries is maintained correctly and only validated values are stored
@@ -221,6 +223,8 @@ def run(analysis: Analysis, tier: str) -> RuleResult:
     c08.confirmation_rule(analysis, res, "C05-R5")
     c08.lookup_rule(analysis, res, "C05-R5", "C05-R5")
     c08.accept_rule(analysis, res, "C05-R5")
+    # a withheld reply is still "the reply the protocol prescribes": nothing may silently drop or reorder it
+    c08.queue_access(analysis, res, "C05-R5")
     need = {("req", None), ("set", None), ("internal", "I_CONFIG"), ("internal", "I_TIME"), ("internal", "I_ID_REQUEST"), ("internal", "I_GATEWAY_READY"), ("stream", "ST_FIRMWARE_CONFIG_REQUEST"), ("stream", "ST_FIRMWARE_REQUEST")}
     missing = need - replying
     for t, sub in sorted(missing, key=str):
